@@ -38,6 +38,15 @@ class C16(Prop):
             yield c
         for c in self.unit_cases(rng, tier):
             yield c
+        # distortion helper on many agents with generic float utilities, the choice being the welfare optimum: the ratio must be >= 1 EXACTLY
+        for i in range(60 if tier == "quick" else 1200):
+            n = [8, 9, 12, 16, 33, 10, 64][i % 7]; m = rng.randint(2, 5)
+            V = [[(rng.random() if i % 4 else rng.randint(1, 9) / 10.0) for _ in range(m)] for _ in range(n)]
+            swx = [sum(Fraction(V[r][j]) for r in range(n)) for j in range(m)]
+            best = 1 + max(range(m), key=lambda j: swx[j])
+            ch = best if i % 3 else sorted(set([best] + rng.sample(range(1, m + 1), rng.randint(0, m - 1))))
+            if isinstance(ch, list) and min(swx[j - 1] for j in ch) < swx[best - 1] and i % 2: ch = [best]
+            yield dict(entry="distortion", family="helper_many_agents", rule="DIST", V=V, choice=ch)
         N = 300 if tier == "quick" else 6000
         for i in range(N):
             rule = ["KARV", "TSF", "DIST"][i % 3]
@@ -153,7 +162,7 @@ class C16(Prop):
             ch = case["choice"]; chosen = [ch] if isinstance(ch, int) else ch
             want = max(sw) / min(sw[j - 1] for j in chosen)
             if abs(Fraction(obs["out"]) - want) > Fraction(1, 10**9) * want: return ("wrong_distortion", "distortion helper returned %r, max/min-chosen welfare is %s" % (obs["out"], float(want)))
-            if obs["out"] < 1 - 1e-12: return ("distortion_below_one", "distortion %r < 1" % obs["out"])
+            if obs["out"] < 1: return ("distortion_below_one", "distortion %r < 1" % obs["out"])
             return None
         k = case["k"]
         if case["rule"] == "KARV":
